@@ -22,25 +22,60 @@ var verifBinOps = []struct {
 	{"+>", NewAddArrowExpr},
 }
 
+// Odd operand shapes for the crash matrix: values the 18-kind universe does not reach but an
+// ill-typed program easily builds.
+const verifOddKinds = 8
+
+func verifGenAny(k int) Value {
+	if k < vkCount {
+		return verifGenValue(k)
+	}
+	one, two := NewNumber(1), NewNumber(2)
+	switch k - vkCount {
+	case 0: // a dictionary keyed by a string
+		return MustNewDict(false, NewDictEntryTuple(NewString([]rune("k")), one))
+	case 1: // a generic tuple whose @ is not a number
+		return NewTuple(NewAttr("@", NewString([]rune("x"))), NewAttr("v", one))
+	case 2: // a relation whose @ column is not numeric
+		return MustNewSet(NewTuple(NewAttr("@", NewString([]rune("x"))), NewAttr("v", one)), NewTuple(NewAttr("@", EmptyTuple), NewAttr("v", two)))
+	case 3: // a union of kinds
+		return MustNewSet(one, NewString([]rune("a")), NewTuple(NewAttr("a", one)), NewArrayItemTuple(0, two))
+	case 4: // nested arrays
+		return NewArray(NewArray(one), NewArray(two, one))
+	case 5: // an array with a hole
+		return NewArray(one, nil, two)
+	case 6: // a string with a hole
+		return MustNewSet(NewStringCharTuple(0, 'a'), NewStringCharTuple(2, 'b'))
+	default: // a function
+		return NewNativeFunction("f", func(_ context.Context, v Value) (Value, error) { return v, nil })
+	}
+}
+
 // verifC10Known declares the crash sites already recorded as known findings for this operator
 // and operand kinds.
 func verifC10Known(op string, ka, kb int) {
 	isSeq := func(k int) bool { return k == vkString || k == vkBytes || k == vkArray }
 	// several values at one index: Array.withItem "superimposed array items not supported yet"
-	verifKnown("KF-C10-array-superimposed", "no-crash", ka == vkArray && (kb == vkArray || kb == vkItemTuple) && (op == "|" || op == "~~" || op == "with" || op == "++"))
+	arr := func(k int) bool { // an array, or something holding array items
+		return k == vkArray || k == vkItemTuple || k == vkCount+3 || k == vkCount+4 || k == vkCount+5
+	}
+	verifKnown("KF-C10-array-superimposed", "no-crash", arr(ka) && ka != vkItemTuple && arr(kb) && (op == "|" || op == "~~" || op == "with" || op == "++"))
 	_ = isSeq
+	// a function used where a finite set is needed: NativeFunction's Set methods panic("unimplemented")
+	fn := vkCount + verifOddKinds - 1
+	verifKnown("KF-C10-function-as-set", "no-crash", ka == fn || kb == fn)
 }
 
-// verif:bound VerifC10BinaryOperators 21 binary operator expressions x 18x18 operand kinds of the value universe (numbers: integers in [-2,2] or any non-NaN float; sequences L<=2; sets <=2 members)
+// verif:bound VerifC10BinaryOperators 21 binary operator expressions x 26x26 operand kinds: the 18-kind value universe plus 8 odd shapes (dict with a string key, tuples and relations with a non-numeric @, a union of kinds, nested and sparse arrays, a sparse string, a function) (numbers: integers in [-2,2] or any non-NaN float; sequences L<=2; sets <=2 members)
 // verif:cover VerifC10BinaryOperators value error
 func VerifC10BinaryOperators() {
 	verifConcreteNumbers = true
 	defer func() { verifConcreteNumbers = false }()
 	op := verifBinOps[verifChoice(len(verifBinOps))]
-	ka := verifChoice(vkCount)
-	kb := verifChoice(vkCount)
-	a := verifGenValue(ka)
-	b := verifGenValue(kb)
+	ka := verifChoice(vkCount + verifOddKinds)
+	kb := verifChoice(vkCount + verifOddKinds)
+	a := verifGenAny(ka)
+	b := verifGenAny(kb)
 	e := op.mk(*parser.NewScanner(""), a, b)
 	var err error
 	p := verifTry(func() { _, err = e.Eval(context.Background(), EmptyScope) })
@@ -63,17 +98,18 @@ var verifUnOps = []struct {
 	{"+", NewPosExpr}, {"-", NewNegExpr}, {"^", NewPowerSetExpr}, {"!", NewNotExpr}, {"count", NewCountExpr}, {"single", NewSingleExpr},
 }
 
-// verif:bound VerifC10UnaryOperators 6 unary operator expressions x 18 operand kinds
+// verif:bound VerifC10UnaryOperators 6 unary operator expressions x 26 operand kinds
 // verif:cover VerifC10UnaryOperators value error
 func VerifC10UnaryOperators() {
 	verifConcreteNumbers = true
 	defer func() { verifConcreteNumbers = false }()
 	op := verifUnOps[verifChoice(len(verifUnOps))]
-	ka := verifChoice(vkCount)
-	a := verifGenValue(ka)
+	ka := verifChoice(vkCount + verifOddKinds)
+	a := verifGenAny(ka)
 	e := op.mk(*parser.NewScanner(""), a)
 	var err error
 	p := verifTry(func() { _, err = e.Eval(context.Background(), EmptyScope) })
+	verifC10Known(op.name, ka, -1)
 	verifAssert("no-crash", !p)
 	if p {
 		return
